@@ -601,9 +601,9 @@ func main() {
 			}
 		}
 	}
-	histMax := 24
+	histMax := 64
 	if *tier == "thorough" {
-		histMax = 96
+		histMax = 192
 	}
 	if len(hist) > histMax {
 		step := len(hist) / histMax
